@@ -2,8 +2,8 @@
 From Coq Require Import List ZArith NArith Bool.
 Import ListNotations.
 From Coq Require Import Permutation.
-From GS Require Import Num NumZ EventLoop Kernel Heap.
-From GS.Proofs Require Import Aux EventLoopP KernelP KernelP3 HeapP HeapEvP.
+From GS Require Import HeapLoop Num NumZ EventLoop Kernel Heap.
+From GS.Proofs Require Import HeapLoopP Aux EventLoopP KernelP KernelP3 HeapP HeapEvP.
 
 (** Requests accepted later carry larger sequence numbers. *)
 Theorem C03_sequence_is_scheduling_order :
@@ -121,6 +121,12 @@ Theorem C03_heapq_push_keeps_heap_condition :
     heap_inv (ev_lt A) h -> heap_inv (ev_lt A) (heappush (ev_lt A) h e).
 Proof. intros F A OL P. apply (heappush_keeps_heap A OL). Qed.
 
+(** popping keeps the heap condition (CPython's [_siftup] from the root), for every array *)
+Theorem C03_heapq_pop_keeps_heap_condition :
+  forall (F : Type) (A : ArithOps F), OrderLaws A -> forall (P : Type) (h h' : list (event F P)) (m : event F P),
+    heap_inv (ev_lt A) h -> heappop (ev_lt A) h = Some (m, h') -> heap_inv (ev_lt A) h'.
+Proof. intros F A OL P. apply (heappop_keeps_heap A OL). Qed.
+
 (** six same-instant events and two earlier ones pushed through the transcribed heap: the heap
     condition holds after every push and the pops come out by time, ties in request order *)
 Example C03_heapq_example :
@@ -141,6 +147,15 @@ Example C03_example :
      RPopped 5%Z 0%nat; RPopped 5%Z 1%nat; RPopped 5%Z 2%nat; RPopped 5%Z 3%nat; RPopped 5%Z 4%nat; RPopped 5%Z 5%nat].
 Proof. vm_compute. reflexivity. Qed.
 
+(** The event loop as the code keeps it -- an array handled by heapq.heappush / heapq.heappop, peek
+    reading cell 0 ([HeapLoop.v], CPython's heapq transcribed in [Heap.v]) -- answers EVERY history of
+    schedule / pop / peek / clear / len / now calls exactly as the list-and-selection model the
+    theorems above are about; so they hold of the heap-based loop as well. *)
+Theorem C03_heap_based_loop_answers_as_the_model :
+  forall (F : Type) (A : ArithOps F), OrderLaws A -> forall (P : Type) (ops : list (el_op F P)),
+    snd (hl_run A (hl_init A) ops) = snd (el_run A (el_init A) ops).
+Proof. intros F A OL P. exact (hl_run_from_init A OL). Qed.
+
 Print Assumptions C03_sequence_is_scheduling_order.
 Print Assumptions C03_fifo.
 Print Assumptions C03_heap_contract_determines_pop.
@@ -153,3 +168,5 @@ Print Assumptions C03_fixed_delay_is_monotone.
 Print Assumptions C03_heapq_pop_is_the_selected_event.
 Print Assumptions C03_heapq_root_is_least.
 Print Assumptions C03_heapq_push_keeps_heap_condition.
+Print Assumptions C03_heap_based_loop_answers_as_the_model.
+Print Assumptions C03_heapq_pop_keeps_heap_condition.
